@@ -340,7 +340,7 @@ pub fn apply_insert(s: &mut InsertStatement, c: &J) -> J {
         "with_cte" => { s.with_cte(with_clause(&c["w"])); }
         other => panic!("unknown insert op {other}"),
     }
-    J::Null
+    json!({"unit": true})
 }
 
 pub fn insert(j: &J) -> InsertStatement {
